@@ -156,7 +156,9 @@ type seqScenario struct {
 	// Stray: a foreign .json file with a short, dateless name in local/ (only in
 	// histories that never run in mode on: nothing is sent there, so the file
 	// is never looked at as a report to upload)
-	Stray string
+	Stray       string
+	Zoned       bool // start times carry a non-UTC location
+	FutureReady bool
 }
 
 func day(y int, m time.Month, d int) time.Time { return time.Date(y, m, d, 0, 0, 0, 0, time.UTC) }
@@ -336,6 +338,26 @@ func genSeqScenario(r *verifrt.Rand, i int) *seqScenario {
 		s.Grow = map[int]int{1: 0}
 		s.PreLocal, s.PreUpload = map[string]string{}, map[string]string{}
 	}
+	if i%40 == 13 {
+		// late in the UTC day, seen from a zone where it is already tomorrow: a
+		// pending report dated tomorrow (UTC) is a report for a week in the future
+		d := s.Starts[0].UTC().Truncate(24 * time.Hour)
+		s.Starts = []time.Time{d.Add(time.Duration(11+r.Intn(12)) * time.Hour).In(time.FixedZone("E", 14*3600))}
+		s.Mode = []string{verifrt.Pick(r, []string{"on", "on 2010-01-01"})}
+		s.Xs = s.Xs[:1]
+		s.Grow = map[int]int{}
+		s.PreLocal[d.Add(24*time.Hour).Format("2006-01-02")] = "ready"
+		s.Zoned = true
+		s.FutureReady = true
+	} else if i%5 == 3 {
+		// the start times are the same instants, expressed in another time zone
+		// (the default start time is time.Now(), a local time): nothing may depend on it
+		z := time.FixedZone("Z", verifrt.Pick(r, []int{14, 13, 9, 5, -3, -8, -11, -12})*3600)
+		for k := range s.Starts {
+			s.Starts[k] = s.Starts[k].In(z)
+		}
+		s.Zoned = true
+	}
 	allLocal := true
 	for _, m := range s.Mode {
 		if strings.HasPrefix(strings.TrimSpace(m), "on") {
@@ -479,6 +501,12 @@ func runSeqScenario(c *seqChecks, base string, s *seqScenario, rnd *verifrt.Rand
 			name = w + ".json"
 		}
 		os.WriteFile(filepath.Join(td.dir.LocalDir(), name), []byte(fmt.Sprintf(`{"Week":%q,"LastWeek":"","X":0.123,"Programs":[],"Config":"v0.0.1-pre"}`, w)), 0o644)
+	}
+	if s.Zoned {
+		c.c02.Hit("start-time-in-another-zone")
+	}
+	if s.FutureReady {
+		c.c02.Hit("pending-report-for-tomorrow-utc")
 	}
 	if s.Stray != "" {
 		os.WriteFile(filepath.Join(td.dir.LocalDir(), s.Stray), []byte(`{"name":"something else"}`), 0o644)
@@ -664,6 +692,10 @@ func judgeSeqRun(c *seqChecks, s *seqScenario, td *tdir, files map[string]*ufile
 			c.c02.Violate("sent-twice-in-one-run", "week "+w+" was posted twice in one run", rp)
 		}
 		sentWeeks[w] = q
+		if len(w) == 10 && w > today {
+			// (the week named by the request ends after the run's start instant)
+			c.c02.Violate("sent-future-week", fmt.Sprintf("a report for week %s was sent by a run started at %s (%s UTC): that week is in the future", w, T.Format(time.RFC3339), T.UTC().Format(time.RFC3339)), rp)
+		}
 		if q.Method != "POST" {
 			c.c01.Violate("not-post", "request method "+q.Method, rp)
 		}
@@ -775,7 +807,9 @@ func judgeSeqRun(c *seqChecks, s *seqScenario, td *tdir, files map[string]*ufile
 				continue
 			}
 			if uploadable {
-				if !sent && w <= today {
+				// (a start time in a zone west of UTC shows an earlier calendar date:
+				// the report then waits for a later run, which the property allows)
+				if !sent && w <= today && w <= T.Format("2006-01-02") {
 					c.c02.Violate("uploadable-not-sent", fmt.Sprintf("week %s is uploadable (mode on, age ok, opt-in ok, sampling ok) but no request was made", w), rp)
 					continue
 				}
